@@ -395,6 +395,10 @@ def reentry_histories(ck, rng):
         "SpinSymRBFiso": lambda: K.SpinSymRBF([0, 1], [2, 3], length_scale=0.8),
         "SpinSymRBFaniso": lambda: K.SpinSymRBF([0, 1], [2, 3], length_scale=ls2.copy()),
         "SpinSymARBF": lambda: K.SpinSymARBF([0, 1], [2, 3], order=2, length_scale=ls2.copy(), scale=[0.3, 0.6, 1.0]),
+        # compositions: the refused call leaves through one guarded child (possibly before the other child was entered)
+        "Sum(SubsetRBFiso,SpinSymRBF)": lambda: K.SubsetRBF([2, 0], length_scale=0.7) + K.SpinSymRBF([0, 1], [2, 3], length_scale=0.8),
+        "Prod(Const,SubsetRBFiso)*SubsetARBF": lambda: (K.DiffConstantKernel(1.3) * K.SubsetRBF([1, 3], length_scale=0.9))
+        * K.SubsetARBF([3, 0, 2], order=2, length_scale=np.array([0.5, 0.8, 1.1]), scale=[0.3, 0.6, 1.0]),
     }
     X, Y = rng.uniform(size=(5, NFEAT)), rng.uniform(size=(3, NFEAT))
     bad = rng.uniform(size=(3, 1))          # too few columns: the column selection / the base kernel refuses it
